@@ -1054,6 +1054,7 @@ class Interpreter(BaseInterpreter[TContext, TEvent]):
         self,
         invocation: InvokeDefinition,
         service: Callable[..., Awaitable[Any]],
+        stamp: Optional[Callable[[Any], Any]] = None,
     ) -> None:
         """Wrapper coroutine that runs an invoked service and handles its result.
 
@@ -1072,6 +1073,12 @@ class Interpreter(BaseInterpreter[TContext, TEvent]):
             invocation.src,
             invocation.id,
         )
+        if stamp is None:
+
+            def stamp(event: Any) -> Any:
+                """No owning activation known: leave the event unstamped."""
+                return event
+
         for plugin in self._plugins:
             plugin.on_service_start(self, invocation)
 
@@ -1096,10 +1103,12 @@ class Interpreter(BaseInterpreter[TContext, TEvent]):
             )
 
             # ✅ Service completed, send a 'done' event with the result data.
-            done_event = DoneEvent(
-                type=f"done.invoke.{invocation.id}",
-                data=result,
-                src=invocation.id,
+            done_event = stamp(
+                DoneEvent(
+                    type=f"done.invoke.{invocation.id}",
+                    data=result,
+                    src=invocation.id,
+                )
             )
             await self.send(done_event)
             logger.info(
@@ -1129,10 +1138,12 @@ class Interpreter(BaseInterpreter[TContext, TEvent]):
                 exc_info=True,
             )
             # Send an 'error' event so the machine can transition to a failure state.
-            error_event = DoneEvent(
-                type=f"error.platform.{invocation.id}",
-                data=e,
-                src=invocation.id,
+            error_event = stamp(
+                DoneEvent(
+                    type=f"error.platform.{invocation.id}",
+                    data=e,
+                    src=invocation.id,
+                )
             )
             # 🚨 If nothing handles the error event, the failure is
             #    unhandled and must be observable rather than merely logged.
@@ -1160,11 +1171,24 @@ class Interpreter(BaseInterpreter[TContext, TEvent]):
             service: The service implementation or MachineNode from logic.
             owner_id: The ID of the state that owns this invocation.
         """
+        # 🔖 Results are stamped with the activation that invoked them, so
+        #    one still queued after the state was left (and re-entered) is
+        #    discarded instead of driving the new activation's handlers.
+        activation = self._stamp_activation(
+            DoneEvent(type="", data=None, src=invocation.id), owner_id
+        ).activation
+
+        def stamp(event: Any) -> Any:
+            """Marks a completion event with the invoking activation."""
+            stamped = self._stamp_activation(event, owner_id)
+            stamped.activation = activation
+            return stamped
+
         # 🎭 Case 1: The service is a MachineNode, so we spawn it as an actor.
         if isinstance(service, MachineNode):
             # Create a task to manage the actor's lifecycle and handle onDone/onError.
             task = asyncio.create_task(
-                self._spawn_and_manage_actor(invocation, service)
+                self._spawn_and_manage_actor(invocation, service, stamp)
             )
             self.task_manager.add(owner_id, task)
             return
@@ -1175,14 +1199,17 @@ class Interpreter(BaseInterpreter[TContext, TEvent]):
             # condition, ensuring the task is registered before the service
             # code runs.
             await asyncio.sleep(0)
-            await self._invoke_service_task(invocation, service)
+            await self._invoke_service_task(invocation, service, stamp)
 
         task = asyncio.create_task(_invoke_wrapper())
         # Register the task with its owner for lifecycle management.
         self.task_manager.add(owner_id, task)
 
     async def _spawn_and_manage_actor(
-        self, invocation: InvokeDefinition, actor_machine: MachineNode
+        self,
+        invocation: InvokeDefinition,
+        actor_machine: MachineNode,
+        stamp: Optional[Callable[[Any], Any]] = None,
     ) -> None:
         """Spawns, starts, and manages an actor, sending events on completion.
 
@@ -1195,6 +1222,12 @@ class Interpreter(BaseInterpreter[TContext, TEvent]):
             actor_machine: The MachineNode definition for the actor.
         """
         child_interpreter = None
+        if stamp is None:
+
+            def stamp(event: Any) -> Any:
+                """No owning activation known: leave the event unstamped."""
+                return event
+
         try:
             # 🧬 Create, configure, and start the new child interpreter.
             actor_id = f"{self.id}:{invocation.src}:{uuid.uuid4()}"
@@ -1241,10 +1274,12 @@ class Interpreter(BaseInterpreter[TContext, TEvent]):
                     "💥 Invoked machine '%s' ended in error; firing onError.",
                     invocation.src,
                 )
-                error_event = DoneEvent(
-                    type=f"error.platform.{invocation.id}",
-                    data=failure,
-                    src=invocation.id,
+                error_event = stamp(
+                    DoneEvent(
+                        type=f"error.platform.{invocation.id}",
+                        data=failure,
+                        src=invocation.id,
+                    )
                 )
                 await self.send(error_event)
                 for plugin in self._plugins:
@@ -1252,10 +1287,12 @@ class Interpreter(BaseInterpreter[TContext, TEvent]):
                 return
 
             # ✅ Child finished cleanly (reached a top-level final state).
-            done_event = DoneEvent(
-                type=f"done.invoke.{invocation.id}",
-                data=child_interpreter.context,  # Return child's final context
-                src=invocation.id,
+            done_event = stamp(
+                DoneEvent(
+                    type=f"done.invoke.{invocation.id}",
+                    data=child_interpreter.context,  # Return child's final context
+                    src=invocation.id,
+                )
             )
             await self.send(done_event)
             for plugin in self._plugins:
@@ -1281,10 +1318,12 @@ class Interpreter(BaseInterpreter[TContext, TEvent]):
                 e,
                 exc_info=True,
             )
-            error_event = DoneEvent(
-                type=f"error.platform.{invocation.id}",
-                data=e,
-                src=invocation.id,
+            error_event = stamp(
+                DoneEvent(
+                    type=f"error.platform.{invocation.id}",
+                    data=e,
+                    src=invocation.id,
+                )
             )
             await self.send(error_event)
             for plugin in self._plugins:
